@@ -26,8 +26,9 @@ PROP = dict(
     design_ref="DESIGN.md section 6, C14",
     rule=("queries: boundary-biased random byte strings (all 25 white-space and 65 control code points in turn, metacharacters next to controls, every shape "
           "of malformed UTF-8, byte lengths 998-1003, invalid bytes whose U+FFFD expansion brings the output to 996-1005 bytes), plus a complete enumeration of "
-          "strings over a 16-symbol alphabet (quick: <=2 symbols, thorough: <=4) and systematic decoder inputs; limits: boundaries and random int64. "
-          "A case is non-trivial if at least one query in it was rejected or came back altered, or a limit was rejected or replaced; "
+          "strings over a 16-symbol alphabet (quick: <=3 symbols, thorough: <=4) and systematic decoder inputs; limits: boundaries and random int64. "
+          "A case is non-trivial if at least one query in it was rejected or came back altered, or a limit was rejected or replaced "
+          "(decoder cases: at least one invalid byte among the decoded strings; the table comparison is not counted); "
           "distinct = distinct op sequences"),
     assumptions=["'characters' in 'no more characters than it had' are runes as Go counts them (utf8.RuneCountInString: an invalid byte is one character); "
                  "the byte length can grow for malformed input (witness theorem Wtf.C14.bytes_can_grow)",
@@ -37,8 +38,8 @@ PROP = dict(
 )
 
 THEOREMS = ["Wtf.C14." + t for t in (
-    "tables_ok", "accept_iff", "accept_iff_all_controls", "clean", "clean_bytes", "bytes_can_grow", "idem_iff", "idem_partial", "idem_fails",
-    "pad", "pad_inner", "limit", "limit_accept_iff")]
+    "gen_facts_ok", "accept_iff", "accept_iff_all_controls", "clean", "clean_bytes", "bytes_can_grow", "idem_iff", "idem_partial", "idem_fails",
+    "pad_exact", "pad", "pad_inner", "limit", "limit_accept_iff")]
 
 ASSERTIONS = ["validate:ValidateQuery", "validate:ValidateLimit", "validate:signatures", "validate:maxLimit", "validate:limit-default-const",
               "validate:maxlen-const", "validate:metaclass", "validate:control-strip", "constants:typecheck"]
@@ -75,7 +76,7 @@ def run(ctx):
     quick = ctx.tier == "quick"
 
     # 1. the two Unicode tables of the model against the toolchain's unicode package, all 0x110000 code points
-    r = ctx.correspond("validate", 1, name="validate-unicode-tables", args={"mode": "tables"}, sample_n=1)
+    ctx.correspond("validate", 1, name="validate-unicode-tables", args={"mode": "tables"}, sample_n=1, nontrivial=lambda *a: False)
     ctx.cov["distribution"]["unicode_code_points_compared"] = 2 * 0x110000
 
     # 2. the decoder on systematic inputs (all 1- and 2-byte strings; structured 3- and 4-byte strings)
@@ -83,7 +84,7 @@ def run(ctx):
     ctx.correspond("validate", n_dec, name="validate-decoder", args={"mode": "decode"}, nontrivial=nontrivial_dec, sample_n=0)
 
     # 3. complete enumeration of short strings over the 16-symbol alphabet
-    elen = 2 if quick else 4
+    elen = 3 if quick else 4
     n_enum = int(tool("c14-cases", "enum", str(elen)))
     ctx.correspond("validate", n_enum, name="validate-enum", args={"mode": "enum", "len": str(elen)}, nontrivial=nontrivial, sample_n=1)
     ctx.cov["distribution"]["enum_max_symbols"] = elen
@@ -94,7 +95,7 @@ def run(ctx):
                                        "the Unicode table comparison is also complete (all 1,114,112 code points); the other streams are samples" % elen)
 
     # 4. boundary-biased random queries and limits
-    ctx.correspond("validate", 1500 if quick else 60000, nontrivial=nontrivial, sample_n=4)
+    ctx.correspond("validate", 4000 if quick else 100000, nontrivial=nontrivial, sample_n=4)
 
     # 5. the witness of Wtf.C14.idem_fails, taken from the model and confirmed on the real code
     w = model_witness(ctx)
